@@ -1,6 +1,8 @@
 import GrafeoModel.Proofs.Lex2Lemmas
 import GrafeoModel.Model.Lex2Cypher
 import GrafeoModel.Model.Lex2Sparql
+import GrafeoModel.Model.Lex2Graphql
+import GrafeoModel.Model.Lex2Gremlin
 
 /-!
 # C12 — no query text can crash or hang the process: the Cypher, SPARQL, GraphQL and Gremlin lexers
@@ -42,11 +44,12 @@ macro "cur_nz" : tactic =>
 
 macro_rules | `(tactic| mono_side) => `(tactic| cur_nz)
 
-theorem ite_ind {α : Type} (P : α → Prop) (b : Bool) (x y : α)
-    (hx : b = true → P x) (hy : b = false → P y) : P (if b = true then x else y) := by
-  cases b
-  · simpa using hy rfl
-  · simpa using hx rfl
+theorem tokOK_utf8 {input : List Char} {t : Tok} (h : TokOK utf8Len input t) :
+    (∃ pre suf : List Char, input = pre ++ suf ∧ t.start = utf8Bytes pre) ∧
+    (∃ pre suf : List Char, input = pre ++ suf ∧ t.stop = utf8Bytes pre) ∧
+    t.start ≤ t.stop ∧ t.stop ≤ utf8Bytes input :=
+  ⟨isBoundaryW_utf8 h.1, isBoundaryW_utf8 h.2.1, h.2.2.1, by
+    have := h.2.2.2.1; rwa [sumW_utf8] at this⟩
 
 /-! ## Cypher -/
 namespace Cypher
@@ -434,13 +437,6 @@ theorem c12_all (input : List Char) :
 end Sparql
 
 
-theorem tokOK_utf8 {input : List Char} {t : Tok} (h : TokOK utf8Len input t) :
-    (∃ pre suf : List Char, input = pre ++ suf ∧ t.start = utf8Bytes pre) ∧
-    (∃ pre suf : List Char, input = pre ++ suf ∧ t.stop = utf8Bytes pre) ∧
-    t.start ≤ t.stop ∧ t.stop ≤ utf8Bytes input :=
-  ⟨isBoundaryW_utf8 h.1, isBoundaryW_utf8 h.2.1, h.2.2.1, by
-    have := h.2.2.2.1; rwa [sumW_utf8] at this⟩
-
 namespace Cypher
 
 /-- **C12, boundary.**  Every token of every input starts and stops on a character boundary of that
@@ -500,5 +496,238 @@ theorem c12_nonvacuity :
       [⟨.var, 0, 2⟩, ⟨.iri, 3, 7⟩, ⟨.str, 8, 11⟩, ⟨.dec, 12, 15⟩, ⟨.eof, 15, 15⟩] := by decide
 
 end Sparql
+
+/-! ## GraphQL -/
+namespace Graphql
+
+theorem skipLine_mono (r : List Char) (n : Nat) : Mono utf8Len ⟨r, n⟩ (skipLine r n) := by
+  induction r generalizing n with
+  | nil => exact Mono.refl _ _
+  | cons ch r ih =>
+    simp only [skipLine]
+    exact ite_ind (Mono utf8Len ⟨ch :: r, n⟩) _ _ _ (fun _ => Mono.refl _ _)
+      (fun _ => (Mono.cons utf8Len ch r n).trans (ih _))
+
+/-- every continuing iteration of the whitespace/comment loop consumes at least one character -/
+theorem skipStep_ok (c c' : Cur) (h : skipStep c = some c') :
+    Mono utf8Len c c' ∧ c'.rest.length < c.rest.length := by
+  obtain ⟨rest, p⟩ := c
+  cases rest with
+  | nil => simp [skipStep] at h
+  | cons ch r =>
+    have h1 : Mono utf8Len ⟨ch :: r, p⟩ ⟨r, p + utf8Len ch⟩ ∧
+        (⟨r, p + utf8Len ch⟩ : Cur).rest.length < (⟨ch :: r, p⟩ : Cur).rest.length :=
+      ⟨Mono.cons utf8Len ch r p, by simp⟩
+    simp only [skipStep] at h
+    by_cases hw : (isWs ch || ch == ',') = true
+    · rw [if_pos hw] at h; cases h; exact h1
+    · rw [if_neg hw] at h
+      by_cases hh : (ch == '#') = true
+      · rw [if_pos hh] at h; cases h
+        have e : ch = '#' := by simpa using hh
+        subst e
+        have e2 : skipLine ('#' :: r) p = skipLine r (p + utf8Len '#') := by
+          simp [skipLine]
+        rw [e2]
+        have hm := skipLine_mono r (p + utf8Len '#')
+        exact ⟨(Mono.cons utf8Len '#' r p).trans hm, hm.lt_of_cons⟩
+      · rw [if_neg hh] at h
+        by_cases hb : (ch == Char.ofNat 0xFEFF) = true
+        · rw [if_pos hb] at h; cases h; exact h1
+        · rw [if_neg hb] at h; cases h
+
+theorem skipWs_mono (c : Cur) : Mono utf8Len c (skipWs c) :=
+  iter_mono skipStep (fun c c' h => (skipStep_ok c c' h).1) _ c
+
+/-- **the whitespace/comment loop exits through its `break`**, never by running out of fuel -/
+theorem skipWs_done (c : Cur) : skipStep (skipWs c) = none :=
+  iter_done skipStep (fun c c' h => (skipStep_ok c c' h).2) _ c (by omega)
+
+theorem readStr_mono (k : Nat) (r : List Char) (n : Nat) :
+    Mono utf8Len ⟨r, n⟩ (readStr k r n) := by
+  fun_induction readStr k r n with
+  | case1 k n => exact Mono.refl _ _
+  | case2 k ch r n ih => exact (Mono.cons utf8Len ch r n).trans ih
+  | case3 ch n _ => exact Mono.cons utf8Len ch [] n
+  | case4 ch n _ e r' _ ih =>
+    exact ((Mono.cons utf8Len ch (e :: r') n).trans (Mono.cons utf8Len e r' _)).trans ih
+  | case5 ch n _ e r' _ ih =>
+    exact ((Mono.cons utf8Len ch (e :: r') n).trans (Mono.cons utf8Len e r' _)).trans ih
+  | case6 ch r n _ _ => exact Mono.cons utf8Len ch r n
+  | case7 ch r n _ _ ih => exact (Mono.cons utf8Len ch r n).trans ih
+
+theorem readBlock_mono (k : Nat) (r : List Char) (n : Nat) :
+    Mono utf8Len ⟨r, n⟩ (readBlock k r n) := by
+  fun_induction readBlock k r n with
+  | case1 k n => exact Mono.refl _ _
+  | case2 k ch r n ih => exact (Mono.cons utf8Len ch r n).trans ih
+  | case3 ch r n _ _ =>
+    exact (Mono.cons utf8Len ch r n).trans ((advW_mono _ _).trans (advW_mono _ _))
+  | case4 ch r n _ _ ih => exact (Mono.cons utf8Len ch r n).trans ih
+  | case5 ch r n _ _ _ ih => exact (Mono.cons utf8Len ch r n).trans ih
+  | case6 ch r n _ _ _ ih => exact (Mono.cons utf8Len ch r n).trans ih
+  | case7 ch r n _ _ ih => exact (Mono.cons utf8Len ch r n).trans ih
+
+/-- every arm only moves forward by whole characters -/
+theorem scanTok_mono (al nu : Char → Bool) (ch : Char) (c : Cur) :
+    Mono utf8Len c (scanTok al nu ch c).2 := by
+  have h : Mono utf8Len c c := Mono.refl _ _
+  have h2 : Mono utf8Len c (advW utf8Len (advW utf8Len c)) :=
+    (advW_mono _ _).trans (advW_mono _ _)
+  unfold scanTok
+  refine ite_ind (fun r : K × Cur => Mono utf8Len c r.2) _ _ _ (fun _ => h) (fun _ => ?_)
+  refine ite_ind (fun r : K × Cur => Mono utf8Len c r.2) _ _ _ (fun _ => ?_) (fun _ => ?_)
+  · exact ite_ind (fun r : K × Cur => Mono utf8Len c r.2) _ _ _ (fun _ => h2) (fun _ => h)
+  refine ite_ind (fun r : K × Cur => Mono utf8Len c r.2) _ _ _ (fun _ => ?_) (fun _ => ?_)
+  · exact ite_ind (fun r : K × Cur => Mono utf8Len c r.2) _ _ _
+      (fun _ => h2.trans (readBlock_mono _ _ _)) (fun _ => readStr_mono _ _ _)
+  refine ite_ind (fun r : K × Cur => Mono utf8Len c r.2) _ _ _
+    (fun _ => readNum_mono _ _ _ _ _) (fun _ => ?_)
+  exact ite_ind (fun r : K × Cur => Mono utf8Len c r.2) _ _ _
+    (fun _ => skipWhileW_mono _ _ _ _) (fun _ => h)
+
+/-- one call of `next_token`, for every pair of Unicode tables -/
+theorem nextToken_ok (al nu : Char → Bool) : StepOK utf8Len (nextToken al nu) := by
+  intro c
+  refine ⟨skipWs c, skipWs_mono c, ?_⟩
+  unfold nextToken
+  dsimp only
+  generalize hc : skipWs c = cs
+  obtain ⟨rest, p⟩ := cs
+  cases rest with
+  | nil => exact ⟨rfl, rfl, Mono.refl _ _, fun h => absurd rfl h⟩
+  | cons ch r =>
+    have hm := scanTok_mono al nu ch ⟨r, p + utf8Len ch⟩
+    exact ⟨rfl, rfl, (Mono.cons utf8Len ch r p).trans hm, fun _ => hm.lt_of_cons⟩
+
+theorem c12_all (al nu : Char → Bool) (input : List Char) :
+    (∀ t ∈ tokenize al nu input, TokOK utf8Len input t) ∧ Chain 0 (tokenize al nu input) ∧
+    (∃ ts t, tokenize al nu input = ts ++ [t] ∧ t.k = .eof ∧ (∀ u ∈ ts, u.k ≠ .eof)) ∧
+    (tokenize al nu input).length ≤ input.length + 1 :=
+  tokenizeWith_ok utf8Len_pos (nextToken_ok al nu) input
+
+/-- **C12, boundary** (for every pair of Unicode tables `al`, `nu`) -/
+theorem c12_boundary (al nu : Char → Bool) (input : List Char) : ∀ t ∈ tokenize al nu input,
+    (∃ pre suf : List Char, input = pre ++ suf ∧ t.start = utf8Bytes pre) ∧
+    (∃ pre suf : List Char, input = pre ++ suf ∧ t.stop = utf8Bytes pre) ∧
+    t.start ≤ t.stop ∧ t.stop ≤ utf8Bytes input :=
+  fun t ht => tokOK_utf8 ((c12_all al nu input).1 t ht)
+
+/-- **C12, progress.**  Every non-`Eof` token consumes at least one byte. -/
+theorem c12_progress (al nu : Char → Bool) (input : List Char) :
+    ∀ t ∈ tokenize al nu input, t.k ≠ .eof → t.start < t.stop :=
+  fun t ht => ((c12_all al nu input).1 t ht).2.2.2.2
+
+/-- **C12, termination.** -/
+theorem c12_terminates (al nu : Char → Bool) (input : List Char) :
+    (∃ ts t, tokenize al nu input = ts ++ [t] ∧ t.k = .eof ∧ (∀ u ∈ ts, u.k ≠ .eof)) ∧
+    (tokenize al nu input).length ≤ input.length + 1 :=
+  ⟨(c12_all al nu input).2.2.1, (c12_all al nu input).2.2.2⟩
+
+/-- **C12, ordered spans.** -/
+theorem c12_ordered (al nu : Char → Bool) (input : List Char) : Chain 0 (tokenize al nu input) :=
+  (c12_all al nu input).2.1
+
+/-- `{a . b}`: the lone dot is an `Eof` token of width 1 and the rest (` b}`) is dropped — the
+silent truncation of the implementation, not a crash -/
+theorem truncation_witness :
+    tokenize Grafeo.Lex.isAlpha Grafeo.Lex.isDigit ['{', 'a', ' ', '.', ' ', 'b', '}'] =
+      [⟨.punct, 0, 1⟩, ⟨.word, 1, 2⟩, ⟨.eof, 3, 4⟩] := by decide
+
+theorem c12_nonvacuity :
+    tokenize Grafeo.Lex.isAlpha Grafeo.Lex.isDigit
+        ['"', 'é', '\\', 'n', '"', ' ', '.', '.', '.', '-', '1', 'e', '+'] =
+      [⟨.str, 0, 6⟩, ⟨.punct, 7, 10⟩, ⟨.flt, 10, 14⟩, ⟨.eof, 14, 14⟩] := by decide
+
+end Graphql
+
+/-! ## Gremlin (offsets are CHARACTER indices) -/
+namespace Gremlin
+
+theorem w1_pos (c : Char) : 1 ≤ w1 c := Nat.le_refl 1
+
+theorem readStr_mono (q : Char) (r : List Char) (n : Nat) :
+    Mono w1 ⟨r, n⟩ (readStr q r n) := by
+  fun_induction readStr q r n with
+  | case1 n => exact Mono.refl _ _
+  | case2 ch n _ => exact Mono.cons w1 ch [] n
+  | case3 ch n _ e r' ih =>
+    exact ((Mono.cons w1 ch (e :: r') n).trans (Mono.cons w1 e r' _)).trans ih
+  | case4 ch r n _ _ => exact Mono.cons w1 ch r n
+  | case5 ch r n _ _ ih => exact (Mono.cons w1 ch r n).trans ih
+
+theorem scanTok_mono (al nu : Char → Bool) (ch : Char) (c : Cur) :
+    Mono w1 c (scanTok al nu ch c).2 := by
+  have h : Mono w1 c c := Mono.refl _ _
+  unfold scanTok
+  refine ite_ind (fun r : K × Cur => Mono w1 c r.2) _ _ _ (fun _ => h) (fun _ => ?_)
+  refine ite_ind (fun r : K × Cur => Mono w1 c r.2) _ _ _ (fun _ => h) (fun _ => ?_)
+  refine ite_ind (fun r : K × Cur => Mono w1 c r.2) _ _ _ (fun _ => readStr_mono _ _ _) (fun _ => ?_)
+  refine ite_ind (fun r : K × Cur => Mono w1 c r.2) _ _ _
+    (fun _ => readNum_mono _ _ _ _ _) (fun _ => ?_)
+  exact ite_ind (fun r : K × Cur => Mono w1 c r.2) _ _ _
+    (fun _ => skipWhileW_mono _ _ _ _) (fun _ => h)
+
+theorem nextToken_ok (al nu : Char → Bool) : StepOK w1 (nextToken al nu) := by
+  intro c
+  refine ⟨skipWs c, skipWhileW_mono _ _ _ _, ?_⟩
+  unfold nextToken
+  dsimp only
+  generalize hc : skipWs c = cs
+  obtain ⟨rest, p⟩ := cs
+  cases rest with
+  | nil => exact ⟨rfl, rfl, Mono.refl _ _, fun h => absurd rfl h⟩
+  | cons ch r =>
+    have hm := scanTok_mono al nu ch ⟨r, p + 1⟩
+    exact ⟨rfl, rfl, (Mono.cons w1 ch r p).trans hm, fun _ => hm.lt_of_cons (ch := ch)⟩
+
+theorem c12_all (al nu : Char → Bool) (input : List Char) :
+    (∀ t ∈ tokenize al nu input, TokOK w1 input t) ∧ Chain 0 (tokenize al nu input) ∧
+    (∃ ts t, tokenize al nu input = ts ++ [t] ∧ t.k = .eof ∧ (∀ u ∈ ts, u.k ≠ .eof)) ∧
+    (tokenize al nu input).length ≤ input.length + 1 :=
+  tokenizeWith_ok w1_pos (nextToken_ok al nu) input
+
+/-- **C12, boundary in character offsets.**  Every token start and stop is the NUMBER OF CHARACTERS
+of a prefix of the input, `start ≤ stop ≤ number of characters`. -/
+theorem c12_boundary (al nu : Char → Bool) (input : List Char) : ∀ t ∈ tokenize al nu input,
+    (∃ pre suf : List Char, input = pre ++ suf ∧ t.start = pre.length) ∧
+    (∃ pre suf : List Char, input = pre ++ suf ∧ t.stop = pre.length) ∧
+    t.start ≤ t.stop ∧ t.stop ≤ input.length := by
+  intro t ht
+  obtain ⟨⟨p1, s1, e1, h1⟩, ⟨p2, s2, e2, h2⟩, h3, h4, _⟩ := (c12_all al nu input).1 t ht
+  have hs : ∀ xs, sumW w1 xs = xs.length := sumW_one
+  exact ⟨⟨p1, s1, e1, by rw [h1, hs]⟩, ⟨p2, s2, e2, by rw [h2, hs]⟩, h3, by rw [← hs]; exact h4⟩
+
+/-- **C12, progress.**  Every non-`Eof` token consumes at least one character. -/
+theorem c12_progress (al nu : Char → Bool) (input : List Char) :
+    ∀ t ∈ tokenize al nu input, t.k ≠ .eof → t.start < t.stop :=
+  fun t ht => ((c12_all al nu input).1 t ht).2.2.2.2
+
+/-- **C12, termination.** -/
+theorem c12_terminates (al nu : Char → Bool) (input : List Char) :
+    (∃ ts t, tokenize al nu input = ts ++ [t] ∧ t.k = .eof ∧ (∀ u ∈ ts, u.k ≠ .eof)) ∧
+    (tokenize al nu input).length ≤ input.length + 1 :=
+  ⟨(c12_all al nu input).2.2.1, (c12_all al nu input).2.2.2⟩
+
+/-- **C12, ordered spans.** -/
+theorem c12_ordered (al nu : Char → Bool) (input : List Char) : Chain 0 (tokenize al nu input) :=
+  (c12_all al nu input).2.1
+
+/-- **witness: Gremlin spans are not byte offsets.**  `"éé"` (4 characters, 6 bytes) is one string
+token with span 0..4, and byte 4 lies inside the second `é` (the byte boundaries are 0,1,3,5,6):
+`&source[0..4]` would panic.  No code slices with these spans today (latent). -/
+theorem span_not_bytes_witness :
+    tokenize Grafeo.Lex.isAlpha Grafeo.Lex.isDigit ['"', 'é', 'é', '"'] =
+      [⟨.str, 0, 4⟩, ⟨.eof, 4, 4⟩] ∧
+    (boundaries utf8Len ['"', 'é', 'é', '"'] 0).contains 4 = false ∧
+    boundaries utf8Len ['"', 'é', 'é', '"'] 0 = [0, 1, 3, 5, 6] := by decide
+
+theorem c12_nonvacuity :
+    tokenize Grafeo.Lex.isAlpha Grafeo.Lex.isDigit
+        ['g', '.', 'V', '(', '-', '1', '.', '5', ')', ' ', '_', ' ', '\'', 'é', '\\'] =
+      [⟨.word, 0, 1⟩, ⟨.punct, 1, 2⟩, ⟨.word, 2, 3⟩, ⟨.punct, 3, 4⟩, ⟨.flt, 4, 8⟩,
+       ⟨.punct, 8, 9⟩, ⟨.punct, 10, 11⟩, ⟨.str, 12, 15⟩, ⟨.eof, 15, 15⟩] := by decide
+
+end Gremlin
 
 end Grafeo.Lex2
